@@ -301,7 +301,7 @@ func c08Sequences(e *Env, code string, note func(string)) {
 			}
 			c.Close()
 		}
-		detail := map[string]any{"sequence": s, "receiver_kept": len(ar.conns), "receiver_kept_from_attacker": attackerKept, "receiver_err": errS(ar.err), "sender_kept": nSender}
+		detail := map[string]any{"sequence": s, "receiver_kept": len(ar.conns), "receiver_kept_from_attacker": attackerKept, "receiver_err": c08ErrStr(ar.err), "sender_kept": nSender}
 		if relay != nil {
 			relay.mu.Lock()
 			detail["sender_bytes_seen_by_relay"] = relay.fromSend
